@@ -2,7 +2,8 @@ import Reduino.Lang.Render
 import Reduino.Lang.InF
 /-
   Well-formedness of the emitted sketch (what `g++ -fsyntax-only` decides for this fragment): every identifier is
-  declared before use in an enclosing scope, global names are distinct, `break` only inside a loop; and the shape of the
+  declared before use in an enclosing scope, global names are distinct, a block declares a local (the temporaries of tuple
+  assignments, W5) at most once, `break` only inside a loop; and the shape of the
   rendered text: one `setup`, one `loop`, balanced braces.
   Source side: `Closed` — the script reads a name only after a top-level assignment to it, or inside the `for` that
   binds it (what a Python programmer gets from "no NameError on any path" in the simplest syntactic form).
@@ -13,12 +14,42 @@ namespace WF
 
 def exprOk (sc : List String) (e : Expr) : Bool := e.vars.all (fun x => sc.contains x)
 
-/-- statement of the sketch in scope `sc`; `inLoop` = lexically inside a C++ loop -/
+/-- numbers of the temporaries a statement declares in the block it sits in (not in a nested block); for a source statement: the
+    temporaries its translation will declare there -/
+def blockTmps : Stmt → List Nat
+  | .seq a b => blockTmps a ++ blockTmps b
+  | .tuple k _ es => (List.range es.length).map (k + ·)
+  | .ctuple k ts _ _ => (List.range ts.length).map (k + ·)
+  | _ => []
+
+/-- the locals a statement leaves declared for the statements after it in the same block -/
+def blockDecls (s : Stmt) : List String := (blockTmps s).map tmpName
+
+/-- initialisers of the temporaries, one after the other: each sees the earlier temporaries -/
+def tmpInitsOk : List String → Nat → List Ty → List Expr → Bool
+  | _, _, [], [] => true
+  | sc, k, _ :: ts, e :: es => exprOk sc e && tmpInitsOk (tmpName k :: sc) (k + 1) ts es
+  | _, _, _, _ => false
+
+/-- a block (`if`/`else` branch, loop body) declares a local name at most once; shadowing a name of an enclosing scope is legal C++;
+    the body of `for (int i …) {…}` shares its scope with `i` -/
+def declsOk : Stmt → Bool
+  | .seq a b => declsOk a && declsOk b
+  | .ifs _ t e => declsOk t && declsOk e && (blockDecls t).Nodup && (blockDecls e).Nodup
+  | .whileLoop _ b => declsOk b && (blockDecls b).Nodup
+  | .forRange i _ b => declsOk b && (blockDecls b).Nodup && !(blockDecls b).contains i
+  | _ => true
+
+/-- statement of the sketch in scope `sc`; `inLoop` = lexically inside a C++ loop; the locals declared by a statement are in scope
+    for the statements after it in the same block -/
 def stmtOk (sc : List String) (inLoop : Bool) : Stmt → Bool
   | .skip => true
-  | .seq a b => stmtOk sc inLoop a && stmtOk sc inLoop b
+  | .seq a b => stmtOk sc inLoop a && stmtOk (blockDecls a ++ sc) inLoop b
   | .assign x e => sc.contains x && exprOk sc e
   | .aug x _ e => sc.contains x && exprOk sc e
+  | .tuple _ _ _ => false
+  | .ctuple k ts xs es =>
+    tmpInitsOk sc k ts es && xs.length == ts.length && xs.all (fun x => (blockDecls (.ctuple k ts xs es) ++ sc).contains x)
   | .ifs c t e => exprOk sc c && stmtOk sc inLoop t && stmtOk sc inLoop e
   | .whileLoop c b => exprOk sc c && stmtOk sc true b
   | .forRange i n b => exprOk (i :: sc) n && stmtOk (i :: sc) true b     -- `for (int i = 0; i < n; ++i) {…}`
@@ -33,7 +64,8 @@ def globalsOk : List String → List (String × Ty × Expr) → Bool
 
 def wf (c : CProg) : Bool :=
   let names := c.globals.map (·.1)
-  globalsOk [] c.globals && stmtOk names false c.setup && stmtOk names false c.loop
+  globalsOk [] c.globals && stmtOk names false c.setup && stmtOk names false c.loop &&
+    declsOk c.setup && (blockDecls c.setup).Nodup && declsOk c.loop && (blockDecls c.loop).Nodup
 
 /-! ### source side -/
 
@@ -44,9 +76,11 @@ def readsOk (sc : List String) (inLoop : Bool) : Stmt → Bool
   | .seq a b => readsOk sc inLoop a && readsOk sc inLoop b
   | .assign _ e => exprOk sc e
   | .aug x _ e => sc.contains x && exprOk sc e
+  | .tuple _ _ es => es.all (exprOk sc)
+  | .ctuple _ _ _ _ => false
   | .ifs c t e => exprOk sc c && readsOk sc inLoop t && readsOk sc inLoop e
   | .whileLoop c b => exprOk sc c && readsOk sc true b
-  | .forRange i n b => exprOk sc n && readsOk (i :: sc) true b
+  | .forRange i n b => exprOk sc n && readsOk (i :: sc) true b && !(blockDecls b).contains i   -- `i` is not a reserved temporary of its own body
   | .write e => exprOk sc e
   | .sleep e => exprOk sc e
   | .brk => inLoop
@@ -95,6 +129,8 @@ def Stmt.klines : Stmt → List (LK × String)
   | .seq a b => a.klines ++ b.klines
   | .assign x e => [(.flat, s!"{x} = {e.c};")]
   | .aug x op e => [(.flat, s!"{x} = ({x} {op.sym} {e.c});")]
+  | .tuple _ _ _ => []
+  | .ctuple k ts xs es => (tmpDeclLines k ts es ++ tmpAssignLines k xs).map fun l => (.flat, l)
   | .ifs c t e =>
     [(.open_, s!"if ({c.c}) \{")] ++ t.klines ++ [(.close, "}")] ++
       (match e with
